@@ -474,6 +474,12 @@ def c12_cases(u, groups, rng, tier):
             out.append(('(enc %s val %s)' % (name, val_sx(v)), {'type': name, 'op': 'enc'}))
             w = mutate_tree(r, denote_py(u, st(name), v), [30000, 40, 41])
             out.append(('(dec %s fresh %s)' % (name, hexs(put_py(w))), {'type': name, 'op': 'dec'}))
+    # (3) every type of the universe encodes as its tags say (one value each; more in the thorough tier)
+    for name in all_names(u):
+        r = rng.fork('c12all' + name)
+        for j in range(1 if tier == 'quick' else 4):
+            v = ValGen(u, r, big=False, max_depth=3).val(st(name))
+            out.append(('(enc %s ptr %s)' % (name, val_sx(v)), {'type': name, 'op': 'enc', 'scope': 'all-types'}))
     return out
 
 
@@ -488,7 +494,7 @@ def c13_cases(u, groups, rng, tier):
                  'nilptrint', 'nilptrptr', 'float', 'array', 'chan', 'ptriface', 'ptr', 'struct']:
         out.append(('(badarg %s)' % kind, {'type': 'Leaf', 'op': 'badarg', 'kind': kind}))
     # rejected registrations must not affect other types: the first-use orders of the history check
-    sess = [x for x in c07_sessions(u, groups, rng.fork('c13orders'), 'quick')['sessions'][-15:]]
+    sess = [x for x in c07_sessions(u, groups, rng.fork('c13orders'), 'quick')['sessions'] if x and x[0][1].get('op') == 'api3-order']
     return {'sessions': sess, 'cases': out}
 
 
@@ -629,7 +635,8 @@ def c17_sessions(u, groups, rng, tier):
                  {'FRUGAL_MAX_INLINE_DEPTH': '1000', 'FRUGAL_MAX_INLINE_IL_SIZE': '500'},
                  {'FRUGAL_MAX_INLINE_DEPTH': '1000000', 'FRUGAL_MAX_INLINE_IL_SIZE': '1000000'},
                  {'FRUGAL_MAX_INLINE_DEPTH': '257', 'FRUGAL_MAX_INLINE_IL_SIZE': '257'},
-                 {'FRUGAL_MAX_INLINE_DEPTH': '2', 'FRUGAL_MAX_INLINE_IL_SIZE': '9223372036854775807'}]
+                 {'FRUGAL_MAX_INLINE_DEPTH': '2', 'FRUGAL_MAX_INLINE_IL_SIZE': '9223372036854775807'},
+                 {'FRUGAL_MAX_INLINE_DEPTH': '4096'}, {'FRUGAL_MAX_INLINE_DEPTH': '100000', 'FRUGAL_MAX_INLINE_IL_SIZE': '100000'}]
     legacy = ['Pretouch', 'NoJIT', 'SetMaxInlineDepth', 'SetMaxInlineILSize', 'GetStats', 'WithOptions']
     bad = groups.get('invalid', [])[:30] + groups.get('poison', [])
     sessions, envs = [], []
@@ -652,7 +659,9 @@ def c17_sessions(u, groups, rng, tier):
     for j, e in enumerate(envs_pool):
         r = rng.fork('env%d' % j)
         pool = [r.pick(names) for _ in range(3)]
-        sessions.append([('(env)', {'op': 'env'})] + [random_op(u, groups, r, pool, []) for _ in range(4)])
+        deep = [('(dec Rec fresh %s)' % hexs(deep_message('struct', d)), {'op': 'dec', 'type': 'Rec', 'shape': 'deep'}) for d in (48, 511, 512, 600, 3000)] \
+            if 'Rec' in u.by_name else []
+        sessions.append([('(env)', {'op': 'env'})] + [random_op(u, groups, r, pool, []) for _ in range(4)] + deep)
         envs.append(e)
     poison = groups.get('poison', [])
     for order in [['PQ', 'PA'], ['PA', 'PQ'], ['POuter', 'POther'], ['PX', 'PZ'], ['PZ', 'PY', 'PX']]:
@@ -705,6 +714,19 @@ def c06_sessions(u, groups, rng, tier):
             sess.append(('(%s %s %s)' % (op, name, hexs(msg)), {'type': name, 'op': op, 'msglen': len(msg) // 256}))
             if r.chance(1, 3):
                 sess.append(('(recheck)', {'op': 'recheck'}))
+        sess.append(('(recheck)', {'op': 'recheck'}))
+        sessions.append(sess)
+    # the unknown-fields holder is memory of the decoded object too: one, two and many skipped fields
+    hold = [s_.name for s_ in valid_structs(u) if s_.holder][:(8 if tier == 'quick' else 100)]
+    for name in hold:
+        r = rng.fork('memhold' + name)
+        sess = []
+        for nunk in (1, 1, 2, 5):
+            v = ValGen(u, r, big=False, max_depth=2).val(st(name))
+            body = put_py(denote_py(u, st(name), v))[:-1]
+            unk = b''.join(b'\x0b' + (60000 + i).to_bytes(2, 'big') + b'\x00\x00\x00\x05hello' for i in range(nunk))
+            sess.append(('(keep %s %s)' % (name, hexs(body + unk + b'\x00')), {'type': name, 'op': 'keep', 'unknown': nunk}))
+            sess.append(('(mem %s %s)' % (name, hexs(body + unk + b'\x00')), {'type': name, 'op': 'mem', 'unknown': nunk}))
         sess.append(('(recheck)', {'op': 'recheck'}))
         sessions.append(sess)
     # allocator thresholds: strings and scalar lists straddling 256 (large-object cut) and 2048 (block size)
